@@ -190,7 +190,7 @@ def nddata_uncertainty(form, sigma, unit):
         if 'other' in tokens:
             sigma = sigma * 1000.0
             unit = u.mJy
-        own = unit ** power
+        own = unit if power == 1 else unit ** power     # (Jy ** 1 is an equal but not identical unit object)
     return cls(sigma ** power, unit=own)
 # --- dtype x byte-order axis (C15) -------------------------------------------
 # numpy dtype string of every dtype-only representation (C-contiguous ndarray).
